@@ -88,6 +88,12 @@ pub struct Ctx {
     pub replay_only: Option<(u32, u64)>,
     journal: Option<std::fs::File>,
     pub notes: Vec<String>,
+    /// sanitizer stage this shard runs under ("" = none, "miri", "asan", "tsan"); from LC3MON_STAGE
+    pub stage: String,
+    /// restrict to these phases (LC3MON_PHASES="3,4")
+    pub only_phases: Option<Vec<u32>>,
+    /// cap on the number of cases per phase (LC3MON_CASE_CAP)
+    pub case_cap: Option<u64>,
 }
 
 pub const MAX_SAMPLES: usize = 4;
@@ -99,6 +105,9 @@ impl Ctx {
             profile: if cfg!(debug_assertions) { "verif".into() } else { "release".into() },
             evaluations: 0, distinct: HashSet::new(), distinct_enum: 0, counts: BTreeMap::new(), samples: vec![],
             violations: BTreeMap::new(), cur: (0, 0), replay_only: None, journal: None, notes: vec![],
+            stage: std::env::var("LC3MON_STAGE").unwrap_or_default(),
+            only_phases: std::env::var("LC3MON_PHASES").ok().map(|s| s.split(',').filter_map(|x| x.trim().parse().ok()).collect()),
+            case_cap: std::env::var("LC3MON_CASE_CAP").ok().and_then(|s| s.parse().ok()),
         }
     }
     pub fn open_journal(&mut self, path: &Path) {
@@ -119,6 +128,8 @@ impl Ctx {
     /// Runs cases `0..n` of `phase` that belong to this shard (or only the replayed one).
     /// Each case gets its own deterministic RNG, so a replay file only needs (seed, phase, index).
     pub fn cases(&mut self, phase: u32, n: u64, mut f: impl FnMut(&mut Ctx, &mut Rng, u64)) {
+        if let Some(ps) = &self.only_phases { if !ps.contains(&phase) && self.replay_only.is_none() { return; } }
+        let n = match self.case_cap { Some(c) if self.replay_only.is_none() => n.min(c), _ => n };
         if let Some((p, i)) = self.replay_only {
             if p == phase && i < n {
                 self.cur = (phase, i);
